@@ -38,6 +38,7 @@ func init() {
 					obs = append(obs, o)
 				}
 			}
+			obs = append(obs, c.ErrFlow(in, in)...)
 			// composition: Marshal/Builder must not hand out memory that is recycled
 			obs = append(obs, c.Pools("net/packet")...)
 			obs = append(obs, c.VarLen()...)
@@ -53,6 +54,7 @@ func init() {
 			obs = append(obs, c.TLGObs(in, in, false)...)
 			obs = append(obs, c.PaletteResizeCopiesAll()...)
 			obs = append(obs, c.PaletteConfig()...)
+			obs = append(obs, c.BitStorageFixSibling()...)
 			return obs
 		},
 	}
@@ -77,6 +79,8 @@ func init() {
 			obs := c.wireObs(func(p, t string) bool { return p == "chat" })
 			obs = append(obs, filterObs(c.MarshalerContract(), func(o core.Ob) bool { return strings.HasPrefix(o.Key, "chat") })...)
 			obs = append(obs, c.TagDispatch("chat")...)
+			obs = append(obs, c.JSONCustomCodec()...)
+			obs = append(obs, c.TranslateArgTypes()...)
 			return obs
 		},
 	}
@@ -88,6 +92,10 @@ func init() {
 			obs = append(obs, c.DispatchOrder()...)
 			obs = append(obs, c.CompressionSwitch()...)
 			obs = append(obs, c.OfflineUUID()...)
+			obs = append(obs, c.ReceiveBufferPerPacket()...)
+			gate := pkgPred("server", "server/auth", "bot")
+			gateArmed := pkgPred("server", "server/auth")
+			obs = append(obs, c.ErrFlow(gate, gateArmed)...)
 			obs = append(obs, c.wireObs(func(p, t string) bool { return p == "yggdrasil/user" || (p == "bot" && t == "DataPack") })...)
 			return obs
 		},
